@@ -62,11 +62,20 @@ TimeValues(st) ==
   IF st = "UTCTime"
   THEN { <<50,51,48,49,49,53,49,50,48,48,48,48,90>>,      \* 230115120000Z
          <<57,57,49,50,51,49,50,51,53,57,53,57,90>>,      \* 991231235959Z
-         <<48,48,48,49,48,49,48,48,48,48,48,48,90>> }     \* 000101000000Z
+         <<48,48,48,49,48,49,48,48,48,48,48,48,90>>,      \* 000101000000Z
+         <<48,49,48,50,48,51,48,52,48,53,90>>,            \* 0102030405Z (minute accuracy)
+         <<48,49,48,50,48,51,48,52,48,53,48,54,45,48,56,48,48>>,   \* 010203040506-0800
+         <<55,48,48,49,48,49,48,48,51,48,43,48,49,48,48>> }        \* 7001010030+0100 (previous day, previous year)
   ELSE { <<50,48,50,51,48,49,49,53,49,50,48,48,48,48,90>>,            \* 20230115120000Z
          <<49,57,55,48,48,49,48,49,48,48,48,48,48,48,90>>,            \* 19700101000000Z
          <<50,48,51,56,48,49,49,57,48,51,49,52,48,56,46,53,90>>,      \* 20380119031408.5Z
-         <<50,49,48,54,48,50,48,55,48,54,50,56,49,54,46,49,50,51,90>> }  \* 21060207062816.123Z
+         <<50,49,48,54,48,50,48,55,48,54,50,56,49,54,46,49,50,51,90>>,   \* 21060207062816.123Z
+         <<50,48,48,49,48,50,48,51,48,52,48,53,48,54>>,                  \* 20010203040506 (local time)
+         <<50,48,48,49,48,50,48,51,48,52,48,53,48,54,43,48,49,51,48>>,   \* 20010203040506+0130
+         <<50,48,48,49,48,49,48,49,48,48,51,48,43,48,49>>,               \* 200101010030+01 (previous year)
+         <<50,48,48,49,48,49,48,49,48,48,90>>,                           \* 2001010100Z (hour accuracy)
+         <<50,48,48,49,48,50,48,51,48,52,48,53,48,54,44,50,53,48,48,90>>,   \* 20010203040506,2500Z
+         <<49,57,57,57,49,50,51,49,50,51,53,57,53,57,46,53,45,48,48,48,49>> }  \* 19991231235959.5-0001 (next century)
 
 StringValues(T, cap) ==
   IF T.st \in {"UTCTime", "GeneralizedTime"} THEN TimeValues(T.st)
